@@ -29,6 +29,14 @@ each yields VIOLATION lines with a signature not produced by the unchanged tree)
   _apply_update_set_values_to_objects, is equivalent under the property: the un-flushed
   application change simply stays pending, which the statement does not forbid.)
   All eight proposed patches applied together (proposed_fixes/c43_*.diff) -> 0 violations.
+  Statement-option / no-RETURNING family (F5), `VF_REPO=/tmp/wt-bulk ./check C43`:
+  g1 orm/bulk_persistence.py _do_pre_synchronize_fetch: `.options(*statement._with_options)` dropped from the pk pre-SELECT
+     -> "unmatched-changed [clean]: UPDATE WHERE <all rows> SET b=9 sync='fetch' variant=clean entity=RN opt=wlc_lambda",
+        "ghost [clean]: DELETE WHERE <all rows> sync='fetch' ... entity=RN opt=wlc_plain", "... hint=is_delete_using opt=wlc_lambda"
+  g2 same function: `select_stmt._where_criteria = statement._where_criteria` dropped
+     -> "unmatched-changed [clean]: UPDATE WHERE a = 0 SET b=9 sync='fetch' variant=clean entity=RN", "ghost ... hint=is_delete_using"
+  g3 _eval_condition_from_statement: loader-criteria (`_adjust_for_extra_criteria`) no longer added for 'evaluate'
+     -> "unmatched-changed [clean]: UPDATE WHERE <all rows> SET b=9 sync='evaluate' variant=clean ... opt=wlc_lambda" (all three routes)
 """
 from __future__ import annotations
 
@@ -48,7 +56,10 @@ META = dict(
     "holding all 144 rows of the full value cross product; every SET clause of a 19-element family and five session "
     "variants (partially/fully expired objects, pending changes with autoflush on/off, partially loaded session), "
     "RETURNING, the legacy Query.update()/delete() route and bulk UPDATE by primary key are crossed with a criterion "
-    "core. After each statement each object's loaded attributes must equal its row, objects of deleted rows must have "
+    "core; statement options {none, with_loader_criteria (lambda / plain criterion that excludes rows the WHERE matches), "
+    "populate_existing} x routes on which 'fetch' cannot use RETURNING and pre-SELECTs the primary keys "
+    "(Table(implicit_returning=False); is_delete_using / is_update_from hints) plus the default route x fetch/evaluate/auto "
+    "x UPDATE/DELETE are crossed with every leaf predicate. After each statement each object's loaded attributes must equal its row, objects of deleted rows must have "
     "left the session (or be fully expired), and 'evaluate' may instead refuse with InvalidRequestError before "
     "anything changed. Complete for the bound: any desynchronisation expressible by such a tree on these rows is found.",
     level_note="Trusted: SQLite's evaluation of the criterion (the reference), the 60-line comparison in bulkworld._compare. "
@@ -66,15 +77,42 @@ META = dict(
     bounds=dict(
         quick="criteria: all leaf predicates with <=1 arithmetic operator, NOT of each, AND/OR of each with an 8-atom core, all "
         "boolean trees with 2 connectives over the core (8.1k trees) x UPDATE/DELETE x evaluate/auto (+fetch, False on the "
-        "shallow levels); 19 SET clauses x 6 criteria x 3 strategies x 2 variants; 7 variant/route families x 15 criteria",
+        "shallow levels); 19 SET clauses x 6 criteria x 3 strategies x 2 variants; 7 variant/route families x 15 criteria; "
+        "3 routes (implicit_returning=False table, multi-table hints, default) x 4 statement options x 3 strategies x all ~90 leaf predicates",
         thorough="+ predicates with 2 arithmetic operators, double negation, connectives over arithmetic predicates, all boolean "
-        "trees with 3 connectives over 6 core atoms (76k trees); variant families over all leaf predicates",
+        "trees with 3 connectives over 6 core atoms (76k trees); variant families over all leaf predicates; option/route family also over one-operator predicates",
     ),
 )
 
 SHARD_TIMEOUT = dict(quick=300, thorough=1700)
 
 N_PARTS = dict(quick=48, thorough=192)
+
+
+# F5: statement options x routes on which synchronize_session='fetch' cannot use RETURNING and has to
+# pre-SELECT the matching primary keys (Table(implicit_returning=False); the is_delete_using /
+# is_update_from hints), plus the default RETURNING route as the base
+F5_ROUTES = (("RN", False), ("R", True), ("R", False))  # (entity, use the multi-table hint)
+F5_OPTS = ("none", "wlc_lambda", "wlc_plain", "populate_existing")
+
+
+def f5_cases(route, opt, tier):
+    entity, hinted = F5_ROUTES[route]
+    crits = [None] + bw.atoms0() + bw.core_atoms()[:0]
+    crits += [["not", ["and", ["isnull", bw.C_A], ["cmp", "eq", bw.C_B, bw.L(0)]]], ["or", ["cmp", "lt", bw.C_A, bw.L(0)], ["cmp", "lt", bw.C_B, bw.L(0)]]]
+    if tier == "thorough":
+        crits += bw.atoms1()
+    for crit in crits:
+        for sync in ("fetch", "evaluate", "auto"):
+            for kind in ("update", "delete"):
+                sets = [{"b": bw.L(9)}] if kind == "delete" or crit is not None else SET_SMALL
+                for setc in sets:
+                    c = dict(kind=kind, crit=crit, set=setc if kind == "update" else {}, sync=sync, variant="clean", entity=entity)
+                    if hinted:
+                        c["hint"] = "is_update_from" if kind == "update" else "is_delete_using"
+                    if opt != "none":
+                        c["opt"] = opt
+                    yield c
 
 
 F3_FAMS = ("expired", "pending", "pending_noflush", "partial_load", "returning", "query", "query_expired")
@@ -84,6 +122,9 @@ def shards(tier, seed):
     out = [("F2",), ("F4",)]
     for fam in F3_FAMS:
         out.append(("F3", fam))
+    for route in range(len(F5_ROUTES)):
+        for opt in F5_OPTS:
+            out.append(("F5", route, opt))
     n = N_PARTS[tier]
     for p in range(n):
         out.append(("F1", p, n))
@@ -120,9 +161,10 @@ def _describe(case):
     if "params" in case:
         return "UPDATE r by primary key, params=%r sync=%r variant=%s" % (case["params"], case["sync"], case.get("variant"))
     crit, setc = case.get("crit"), case.get("set") or {}
-    return "%s WHERE %s%s sync=%r variant=%s" % (
+    return "%s WHERE %s%s sync=%r variant=%s%s" % (
         case["kind"].upper(), bw.show(crit) if crit is not None else "<all>",
-        (" SET " + bw.show_set(setc)) if case["kind"] == "update" else "", case["sync"], case.get("variant", "clean"))
+        (" SET " + bw.show_set(setc)) if case["kind"] == "update" else "", case["sync"], case.get("variant", "clean"),
+        "".join(" %s=%s" % (k, case[k]) for k in ("entity", "hint", "opt") if case.get(k) and case.get(k) != "R"))
 
 
 CRIT_CORE = [
@@ -205,7 +247,7 @@ def run_shard(shard, tier, rec):
             for sync in syncs:
                 for kind in ("update", "delete"):
                     case = dict(kind=kind, crit=crit, set={"b": bw.L(9)} if kind == "update" else {}, sync=sync, variant="clean")
-                    _do(case, rec, rank=(3, idx, str(sync), kind))
+                    _do(case, rec, rank=(4, idx, str(sync), kind))
             rec.count("criteria " + level)
     elif fam == "F2":
         i = 0
@@ -221,6 +263,9 @@ def run_shard(shard, tier, rec):
     elif fam == "F4":
         for i, case in enumerate(f4_cases(tier)):
             _do(case, rec, bulk=True, rank=(2, i))
+    elif fam == "F5":
+        for i, case in enumerate(f5_cases(shard[1], shard[2], tier)):
+            _do(case, rec, rank=(3, shard[1], F5_OPTS.index(shard[2]), i))
 
 
 def finish(tier, total):
